@@ -258,7 +258,7 @@ fn attrs_on(state: &slicec::compilation_state::CompilationState, on: &str) -> Op
 }
 
 fn place_attr(one: &str, twice: bool, on: &str) -> Vec<String> {
-    let a = if on == "file" {
+    let a = if on == "file" || on == "fileonly" {
         if twice { format!("[[{one}]] [[{one}]]") } else { format!("[[{one}]]") }
     } else if twice {
         format!("[{one}] [{one}]")
@@ -267,6 +267,7 @@ fn place_attr(one: &str, twice: bool, on: &str) -> Vec<String> {
     };
     let text = match on {
         "file" => format!("{a}\nmodule M\nstruct S {{ f: int32 }}\n"),
+        "fileonly" => format!("{a}\n"),
         "module" => format!("{a} module M\nstruct S {{ f: int32 }}\n"),
         "struct" => format!("module M\n{a} struct S {{ f: int32 }}\n"),
         "field" => format!("module M\nstruct S {{ {a} f: int32 }}\n"),
